@@ -207,50 +207,53 @@ def rowFreq (s : TimeRow) : Freq :=
     for monthly data) at hour 0, end month/day at hour 23, timestep `60 / Interval` for (sub-)hourly data
     and 1 otherwise, leap flag `year ≠ 0 ∧ year % 4 = 0` of the last row; the frequency class follows
     the interval type (≤ 1 hourly continuous, 2 daily, 3 monthly).  Hypotheses = what the code requires:
-    dates valid in a non-leap year, an interval that gives a valid timestep. -/
+    dates that exist in the calendar of that (leap or normal) year – 29 Feb of a leap year included –
+    and an interval that gives a valid timestep. -/
 theorem C19_period_from_time_table (s e : TimeRow)
     (hty : s.itype ≤ 3)
     (hiv : s.itype ≤ 1 → 1 ≤ s.interval ∧ s.interval ≤ 60 ∧ 60 / s.interval ∈ validTimesteps)
-    (hs : (⟨s.month, if s.itype = 3 then 1 else s.day, 0, 0, false⟩ : Cal.DT).valid)
-    (he : (⟨e.month, e.day, 0, 0, false⟩ : Cal.DT).valid) :
+    (hs : (⟨s.month, if s.itype = 3 then 1 else s.day, 0, 0, leapOfYear e.year⟩ : Cal.DT).valid)
+    (he : (⟨e.month, e.day, 0, 0, leapOfYear e.year⟩ : Cal.DT).valid) :
     extractRunPeriodRows (some s) (some e) =
       .ok (some ⟨s.month, if s.itype = 3 then 1 else s.day, 0, e.month, e.day, 23, rowTimestep s,
                  leapOfYear e.year⟩, rowFreq s, s.env != e.env) := by
-  have hsL := valid_leap _ _ _ (leapOfYear e.year) hs
   have he23 : (⟨e.month, e.day, 23, 0, leapOfYear e.year⟩ : Cal.DT).valid := by
-    have := valid_leap _ _ _ (leapOfYear e.year) he
+    have := he
     unfold Cal.DT.valid at this ⊢
     simp only at this ⊢
     omega
   by_cases h1 : s.itype ≤ 1
   · obtain ⟨i1, i2, i3⟩ := hiv h1
     have hne3 : ¬ s.itype = 3 := by omega
-    simp only [hne3, if_false] at hs hsL ⊢
+    simp only [hne3, if_false] at hs ⊢
     have hend : endHourOf s.interval = 23 := by unfold endHourOf; omega
     have a1 : ¬ s.interval = 0 := by omega
     have a2 : ¬ 60 < s.interval := by omega
     simp only [extractRunPeriodRows, freqOf, h1, if_true, a1, a2, if_false, bind, Except.bind, pure, Except.pure,
       rowTimestep, rowFreq, reduceCtorEq, dtMake_ok _ _ _ _ hs, dtMake_ok _ _ _ _ he, hend,
-      mkPeriod_ok _ _ _ _ _ _ hsL he23 i3]
+      mkPeriod_ok _ _ _ _ _ _ hs he23 i3]
   · by_cases h2 : s.itype = 2
     · have hne3 : ¬ s.itype = 3 := by omega
-      simp only [hne3, if_false] at hs hsL ⊢
+      simp only [hne3, if_false] at hs ⊢
       have hend : endHourOf 60 = 23 := by decide
       have hv : (1 : Nat) ∈ validTimesteps := by decide
       have c1 : ¬ ((2 : Int) ≤ 1) := by decide
       simp only [extractRunPeriodRows, freqOf, h1, h2, c1, if_true, if_false, bind, Except.bind, pure, Except.pure,
         rowTimestep, rowFreq, reduceCtorEq, dtMake_ok _ _ _ _ hs, dtMake_ok _ _ _ _ he, hend,
-        mkPeriod_ok _ _ _ _ _ _ hsL he23 hv]
+        mkPeriod_ok _ _ _ _ _ _ hs he23 hv]
     · have h3 : s.itype = 3 := by omega
-      simp only [h3, if_true] at hs hsL ⊢
+      simp only [h3, if_true] at hs ⊢
       have hend : endHourOf 60 = 23 := by decide
       have hv : (1 : Nat) ∈ validTimesteps := by decide
       have b1 : ¬ ((3 : Int) ≤ 1) := by decide
       have b2 : ¬ ((3 : Int) = 2) := by decide
       simp only [extractRunPeriodRows, freqOf, h3, b1, b2, if_true, if_false, bind, Except.bind, pure, Except.pure,
         rowTimestep, rowFreq, reduceCtorEq, dtMake_ok _ _ _ _ hs, dtMake_ok _ _ _ _ he, hend,
-        mkPeriod_ok _ _ _ _ _ _ hsL he23 hv]
+        mkPeriod_ok _ _ _ _ _ _ hs he23 hv]
 
+/-- Sample (kernel-evaluated test): a leap-year daily run period 1 Feb – 29 Feb is read. -/
+example : extractRunPeriodRows (some ⟨1, 2016, 2, 1, 1440, 2, 8⟩) (some ⟨29, 2016, 2, 29, 1440, 2, 8⟩) =
+    .ok (some ⟨2, 1, 0, 2, 29, 23, 1, true⟩, .daily, false) := by decide +kernel
 
 example : extractRunPeriodRows (some ⟨1, 2016, 1, 6, 10, -1, 8⟩) (some ⟨1008, 2016, 3, 12, 10, -1, 8⟩) =
     .ok (some ⟨1, 6, 0, 3, 12, 23, 6, true⟩, .steps 6, false) := by decide +kernel
@@ -275,37 +278,89 @@ theorem C19_period_len (p : Period) (h0 : p.stHour = 0) (h23 : p.endHour = 23) (
     rw [hr]
     simp
 
-/-! ### Recorded defects of the code (known_findings.d/C19.json), as facts about the faithful model -/
+/-! ### One reporting key, units per output, annual data (repaired by fixes/C19_*.patch) -/
 
-/-- An output with exactly one reporting key cannot be read per run period: the statement
-    `… IN (7,)` is rejected by sqlite3 (the model's `sqlError`). -/
-theorem C19_run_period_single_key_counterexample (conv : α → α) (db : DB α) (name : String) (env : Nat)
-    (h : DictRow) (hh : headerRows db.dict (.single name) = [h]) :
-    queryRunPeriod conv db name env = .error .sqlError := by
-  simp [queryRunPeriod, hh]
+/-- An output with a single reporting key: de-interleaving with `n = 1` returns the rows themselves. -/
+theorem C19_single_key (data : List α) (hne : data ≠ []) : partition data 1 = .ok [data] := by
+  have hpos : 0 < data.length := List.length_pos_iff.mpr hne
+  obtain ⟨cols, h1, h2, h3⟩ := C19_deinterleave data 1 data.length (by omega) hpos (by simp)
+  obtain ⟨c, hc1, hc2, hc3⟩ := h3 0 (by omega)
+  obtain ⟨a, ha⟩ := List.length_eq_one_iff.mp h2
+  rw [ha] at hc1
+  simp only [List.getElem?_cons_zero, Option.some.injEq] at hc1
+  have hcd : c = data := by
+    apply List.ext_getElem?
+    intro t
+    by_cases ht : t < data.length
+    · have := hc3 t ht
+      simpa using this
+    · rw [List.getElem?_eq_none (by omega), List.getElem?_eq_none (by omega)]
+  rw [h1, ha, hc1, hcd]
 
-/-- A leap-year run period that ends on 29 Feb is rejected (`DateTime(2, 29, 0)` without the leap flag). -/
-theorem C19_feb29_counterexample :
-    extractRunPeriodRows (some ⟨1, 2016, 2, 1, 1440, 2, 8⟩) (some ⟨29, 2016, 2, 29, 1440, 2, 8⟩) =
-      .error .value := by decide +kernel
+/-- Sample (kernel-evaluated test): the run-period query of a one-key output returns its rows. -/
+example :
+    let db : DB Nat := ⟨[⟨7, "Zone", "Environment", "T", "Daily", "C"⟩],
+      [⟨1, 2017, 1, 1, 1440, 2, 8⟩, ⟨2, 2017, 1, 2, 1440, 2, 8⟩], [⟨1, 7, 11⟩, ⟨2, 7, 12⟩]⟩
+    (match queryRunPeriod (· / 3600000) db "T" 8 with
+     | .ok (.colls cs) => cs.map fun c => (c.key, c.unit, c.values, c.datetimes)
+     | _ => []) = [("Environment", "C", [11, 12], [1, 2])] := by decide +kernel
 
-/-- A name list mixing a `J` and a `C` output: the temperatures are converted and labelled `kWh` too
-    (unit and data type are taken from the first dictionary row only).  Values are naturals here and the
-    conversion is integer division, to keep the witness kernel-checkable. -/
-theorem C19_mixed_units_counterexample :
+/-- In a list of output names every column is converted according to the flag of its own output:
+    column `k` is mapped through the conversion iff flag `k` is set, and otherwise left as it is. -/
+theorem C19_convert_per_column (conv : α → α) (flags : List Bool) (cols : List (List α)) (k : Nat)
+    (f : Bool) (c : List α) (hf : flags[k]? = some f) (hc : cols[k]? = some c) :
+    (convCols conv flags cols)[k]? = some (if f then c.map conv else c) := by
+  have hz : (flags.zip cols)[k]? = some (f, c) := by
+    rw [List.getElem?_zip_eq_some]
+    exact ⟨hf, hc⟩
+  simp [convCols, List.getElem?_map, hz]
+
+/-- The flag of an output is set exactly for energy: `J` gives `Energy`/`kWh`; a unit other than
+    `J` (and `kWh`) never sets it, so those values stay untouched. -/
+theorem C19_flag_by_own_unit (r : DictRow) :
+    (r.units = "J" → typeUnitOf r = (.base "Energy", "kWh")) ∧
+    (r.units ≠ "J" → r.units ≠ "kWh" → ((typeUnitOf r).2 == "kWh") = false) := by
+  constructor
+  · intro h
+    unfold typeUnitOf
+    rw [h]
+    exact C19_kwh_label r.name
+  · intro h1 h2
+    have := C19_other_units_untouched r.units r.name h1 h2
+    unfold typeUnitOf
+    simpa using this
+
+/-- Sample (kernel-evaluated test): a name list mixing a `J` and a `C` output – only the energy is
+    converted and labelled `kWh`, the temperature keeps unit and values. -/
+example :
     let db : DB Nat := ⟨[⟨1, "Zone", "Z1", "E", "Daily", "J"⟩, ⟨2, "Zone", "Z1", "T", "Daily", "C"⟩],
       [⟨1, 2017, 1, 1, 1440, 2, 8⟩], [⟨1, 1, 7200000⟩, ⟨1, 2, 3600000⟩]⟩
     (match queryAll (· / 3600000) db (.many ["E", "T"]) with
      | .ok (.colls cs) => cs.map fun c => (c.metaType, c.unit, c.values)
-     | _ => []) = [("E", "kWh", [2]), ("T", "kWh", [1])] := by decide +kernel
+     | _ => []) = [("E", "kWh", [2]), ("T", "C", [3600000])] := by decide +kernel
 
-/-- Run-period (annual) frequency with several environments: `run_period` is `None` and the code fails
-    with AttributeError instead of returning the values. -/
-theorem C19_annual_multi_env_counterexample :
-    let db : DB Nat := ⟨[⟨1, "Zone", "Z1", "E", "Run Period", "J"⟩],
-      [⟨1, 0, 7, 21, 1440, 4, 1⟩, ⟨2, 2017, 12, 31, 525600, 4, 2⟩], [⟨1, 1, 5⟩, ⟨2, 1, 6⟩]⟩
+/-- Sample (kernel-evaluated test): run-period (annual) frequency with a design day and a run period
+    gives one value per run period and key, in time order. -/
+example :
+    let db : DB Nat := ⟨[⟨1, "Zone", "Z1", "E", "Run Period", "W"⟩, ⟨2, "Zone", "Z2", "E", "Run Period", "W"⟩],
+      [⟨1, 0, 7, 21, 1440, 4, 1⟩, ⟨2, 2017, 12, 31, 525600, 4, 2⟩],
+      [⟨1, 1, 5⟩, ⟨1, 2, 6⟩, ⟨2, 1, 7⟩, ⟨2, 2, 8⟩]⟩
+    (match queryAll (· / 3600000) db (.single "E") with
+     | .ok (.annual vs) => vs
+     | _ => []) = [5, 6, 7, 8] := by decide +kernel
+
+/-! ### Recorded defect of the code (known_findings.d/C19.json), as a fact about the faithful model -/
+
+/-- Daily and monthly reporting over two run periods (1–2 Jan, 1 Jul): `_extract_all_run_period` reads
+    the end of each period from the monthly rows (31 Jan, 31 Jul), the chunk sizes become 31 + 31 for
+    3 rows, and the query fails (`range() arg 3 must not be zero`) instead of returning two collections. -/
+theorem C19_mixed_time_table_counterexample :
+    let db : DB Nat := ⟨[⟨1, "Zone", "Z1", "E", "Daily", "C"⟩],
+      [⟨1, 2017, 1, 1, 1440, 2, 1⟩, ⟨2, 2017, 1, 2, 1440, 2, 1⟩, ⟨3, 2017, 1, 31, 44640, 3, 1⟩,
+       ⟨4, 2017, 7, 1, 1440, 2, 2⟩, ⟨5, 2017, 7, 31, 44640, 3, 2⟩],
+      [⟨1, 1, 5⟩, ⟨2, 1, 6⟩, ⟨4, 1, 7⟩]⟩
     (match queryAll (· / 3600000) db (.single "E") with
      | .error e => some e
-     | .ok _ => none) = some .attr := by decide +kernel
+     | .ok _ => none) = some .value := by decide +kernel
 
 end Sql
